@@ -643,6 +643,23 @@ class FakeSignal:
     def getsignal(self, sig):
         return ctx()[2].handlers.get(int(sig), SIG_DFL)
 
+    SIG_BLOCK, SIG_UNBLOCK, SIG_SETMASK = _signal.SIG_BLOCK, _signal.SIG_UNBLOCK, _signal.SIG_SETMASK
+
+    def pthread_sigmask(self, how, mask):
+        s, t, p = ctx()
+        old = set(p.blocked)
+        m = {int(x) for x in mask} - {int(_signal.SIGKILL), int(_signal.SIGSTOP)}
+        if how == _signal.SIG_BLOCK:
+            p.blocked |= m
+        elif how == _signal.SIG_UNBLOCK:
+            p.blocked -= m
+        elif how == _signal.SIG_SETMASK:
+            p.blocked = m
+        else:
+            raise ValueError("invalid how")
+        s.tick()                 # a signal that was held back is delivered before the call returns
+        return {_signal.Signals(x) for x in old}
+
     def siginterrupt(self, sig, flag):
         s, t, p = ctx()
         p.sigint_flag[int(sig)] = bool(flag)
